@@ -100,7 +100,7 @@ class DotRenderer:
         if not (name := hugr[hugr.root].metadata.get("name", None)):
             name = ""
 
-        graph = gv.Digraph(name, strict=False)
+        graph = gv.Digraph(str(name), strict=False)
         graph.attr(**graph_attr)
 
         self._viz_node(hugr.root, hugr, graph)
